@@ -21,7 +21,7 @@ for d in sorted(glob.glob('/tmp/mut-out/C*/m*')):
     os.makedirs(out, exist_ok=True)
     shutil.copy(os.path.join(d, 'patch.diff'), out)
     shutil.copy(os.path.join(d, 'demo.rs'), out)
-    own = r['checks'].get(prop, {})
+    own = r.get('checks', {}).get(prop, {})
     m = {
         'property': prop, 'mutant': k,
         'summary': meta.get('summary'), 'file': meta.get('file'),
@@ -42,7 +42,7 @@ print('| mutant | change | own check | also caught by |')
 print('|---|---|---|---|')
 for prop, k, ok, own, by, summ, f, r in rows:
     others = [b for b in (by or []) if b != prop]
-    sig = (r['checks'].get(prop, {}).get('signatures') or [''])[0]
+    sig = (r.get('checks', {}).get(prop, {}).get('signatures') or [''])[0]
     print(f"| {prop}-{k} | {(summ or '')[:110]} | {'**caught** `' + sig[:70] + '`' if own else ('MISSED' if ok else 'not confirmed')} | {' '.join(others)} |")
 n = len(rows); c = sum(1 for r in rows if r[2]); o = sum(1 for r in rows if r[2] and r[3]); a = sum(1 for r in rows if r[2] and r[4])
 print(f'\n{n} delivered, {c} confirmed, {o} caught by the check of their own property, {a} caught by at least one check')
